@@ -65,6 +65,7 @@ typedef struct private_state {
   drft_lookup             fft_look[2];
 
   int                     modebits;
+  int                     halfrate; /* decode: half-rate shift this state was built with */
   vorbis_look_floor     **flr;
   vorbis_look_residue   **residue;
   vorbis_look_psy        *psy;
